@@ -313,6 +313,12 @@ def check(ctx):
     # the given ids on every path (instances of C08.3)
     n = import_rules(ctx, "c08", ("C08.3",), "C12.8")
     ctx.require(n >= 6, "C12.8: reduce_to_ids instances not found")
+    # ... and with exactly [0] + delta_ids, in the order of the values: the
+    # k-th stored pose (after the first) is the end pose of the k-th value
+    # (instance of C02.7, rpe(): reduce)
+    n = import_rules(ctx, "c02", ("C02.7",), "C12.8",
+                     pred=lambda o: o.key.endswith(":rpe:reduce"))
+    ctx.require(n >= 1, "C12.8: rpe() reduction instance not found")
 
 
 def _units(ctx):
